@@ -448,6 +448,29 @@ def rule_cad(ctx) -> None:
                   "write_snapshot is not guarded by the cadence predicate (snapshot off-cadence)")
     # every normal path consults the cadence, and its true branch must write
     cad_nodes = [n for n in cfg.nodes if n.kind == "cond" and is_cadence_test(n.ast, n)]
+    # extract-function refactor: a tail moved into a helper (`return _finish_without_apply(...)`) consults the cadence there -
+    # a call to a repository function all of whose normal paths pass a cadence test counts as the consultation
+    def _helper_consults(h) -> bool:
+        hcfg, hrd = ctx.cfg(h), ctx.rd(h)
+
+        def _t(test, at):
+            inl = hrd.inline(test, at)
+            return isinstance(inl, ast.Call) and (dotted(inl.func) or "").endswith("_should_snapshot")
+
+        hc = [n for n in hcfg.nodes if n.kind == "cond" and _t(n.ast, n)]
+        return bool(hc) and must_pass(hcfg, [hcfg.entry], lambda n: n is hcfg.exit, lambda n: n in hc, edge_ok=no_exc) is None
+
+    _seen_h: Dict[str, bool] = {}
+    for n in cfg.nodes:
+        if n.ast is None or n.kind not in ("stmt", "cond"):
+            continue
+        for c in [x for x in ast.walk(n.ast) if isinstance(x, ast.Call)] if not isinstance(n.ast, (ast.FunctionDef, ast.ClassDef)) else []:
+            r = ctx.prog.callee(fn, c)
+            if r and r[0] == "func" and r[1] in ctx.prog.funcs and r[1] != fn.qual and ctx.prog.funcs[r[1]].module is fn.module:
+                if r[1] not in _seen_h:
+                    _seen_h[r[1]] = _helper_consults(ctx.prog.funcs[r[1]])
+                if _seen_h[r[1]]:
+                    cad_nodes.append(n)
     p = must_pass(cfg, [cfg.entry], lambda n: n is cfg.exit, lambda n: n in cad_nodes, edge_ok=no_exc)
     ctx.check(p is None, "C04.CAD", f"{APPLY}/cadence-consulted", fn.loc(),
               f"every normal path passes one of the {len(cad_nodes)} cadence tests",
